@@ -291,7 +291,16 @@ def _equities(chk, ctx, mi) -> None:
     norm = ctx.m.assigns(ce.node, 'equity / sample_count')
     chk.ob('C18.shares', 'analysis.calculate_equities:mean', len(norm) == 1, ce.loc, 'an equity is the mean share over the samples')
     hs = mi.functions.get('calculate_hand_strength')
-    ok = hs is not None and any(isinstance(n, ast.Return) and ctx.m.eq(T.norm(n.value), 'equities[-1]') for n in walk_no_nested(hs.node)) \
+    def _last_equity(v):
+        if not (isinstance(v, ast.Subscript) and T.norm(v.slice) == ('num', -1)):
+            return False
+        src = v.value
+        if isinstance(src, ast.Name):
+            defs = [a for a in walk_no_nested(hs.node) if isinstance(a, ast.Assign) and len(a.targets) == 1
+                    and isinstance(a.targets[0], ast.Name) and a.targets[0].id == src.id]
+            src = defs[0].value if len(defs) == 1 else None
+        return isinstance(src, ast.Call) and isinstance(src.func, ast.Name) and src.func.id == 'calculate_equities'
+    ok = hs is not None and any(isinstance(n, ast.Return) and _last_equity(n.value) for n in walk_no_nested(hs.node)) \
         and any(isinstance(n, ast.Call) and isinstance(n.func, ast.Attribute) and n.func.attr == 'append' and n.args
                 and T.norm(n.args[0]) == ('name', 'hole_range') for n in walk_no_nested(hs.node))
     chk.ob('C18.shares', 'analysis.calculate_hand_strength', ok, hs.loc if hs else 'pokerkit/analysis.py', 'hand strength is the equity of the last range (the hero) against unknown opponents')
